@@ -159,7 +159,26 @@ def typed_valid(arguments):
     return True
 
 
-VALIDATED = {'typed': (TYPED_SCHEMA, typed_valid)}
+def b_typed_default(tok, flag=False):
+    return ['d', flag]
+
+
+# validator-level (default) schema: used by methods decorated with a bare ``validator.validate``
+DEFAULT_SCHEMA = {
+    'type': 'object',
+    'properties': {'tok': {'type': 'string'}, 'flag': {'type': 'boolean'}},
+    'required': ['tok'],
+}
+
+
+def typed_default_valid(arguments):
+    if not isinstance(arguments.get('tok'), str):
+        return False
+    return 'flag' not in arguments or isinstance(arguments['flag'], bool)
+
+
+# name -> (schema passed to validate() or None for "relies on the validator-level schema", reference predicate)
+VALIDATED = {'typed': (TYPED_SCHEMA, typed_valid), 'typed_default': (None, typed_default_valid)}
 
 
 def b_ctx_echo(ctx, tok, value=None):
@@ -169,6 +188,7 @@ def b_ctx_echo(ctx, tok, value=None):
 BODIES: Dict[str, Callable[..., Any]] = {
     'echo': b_echo, 'add': b_add, 'none': b_none, 'pair': b_pair,
     'fail_proto': b_fail_proto, 'fail_exc': b_fail_exc, 'slow': b_slow, 'op_ab': b_op_ab, 'op_ba': b_op_ba, 'typed': b_typed,
+    'typed_default': b_typed_default,
 }
 SIGNATURES: Dict[str, inspect.Signature] = {name: inspect.signature(fn) for name, fn in BODIES.items()}
 
@@ -285,12 +305,18 @@ class Service:
 
     def registry(self, names: Optional[List[str]] = None) -> pjrpc.server.MethodRegistry:
         reg = pjrpc.server.MethodRegistry()
+        validator = None
         for name in (names or sorted(self.methods)):
             method = self.methods[name]
             if name in VALIDATED:
-                # a schema validator attached the way users do it: validator.validate(method, schema=...)
-                import pjrpc.server.validators.jsonschema as vjs
-                method = vjs.JsonSchemaValidator().validate(method, schema=VALIDATED[name][0])
+                # ONE schema validator per service, attached the way users do it: a validator-level default schema,
+                # ``validator.validate(method, schema=...)`` for methods with their own schema and a bare
+                # ``validator.validate(method)`` for methods relying on the default
+                if validator is None:
+                    import pjrpc.server.validators.jsonschema as vjs
+                    validator = vjs.JsonSchemaValidator(schema=DEFAULT_SCHEMA)
+                schema = VALIDATED[name][0]
+                method = validator.validate(method, schema=schema) if schema is not None else validator.validate(method)
             reg.add(method, name=name)
         return reg
 
